@@ -15,6 +15,7 @@ CONSTANTS Script,      \* sequence of "start" / "stop" / "endrep" (end_replicati
           NEvents,     \* events on the event list (times 1..NEvents, replication end beyond)
           Faulty,      \* set of event numbers whose handler raises (WARN_AND_PAUSE)
           Stoppers,    \* set of event numbers whose handler calls stop() (a command issued on the run thread)
+          Cleaners,    \* set of event numbers whose handler calls cleanup() (what the WARN_AND_END strategy does after a failure)
           OnStart,     \* "stop": a START_EVENT listener calls stop() (once), on the run thread before it writes STARTED; "none"
           OnStop,      \* "start": a STOP_EVENT listener calls start() (once), on the run thread before it writes STOPPED; "none"
           Fixes,
@@ -35,6 +36,7 @@ variables rs = "INITIALIZED", rep = "INITIALIZED", runflag = FALSE, fin = FALSE,
           selfStart = FALSE,    \* history: a STOP_EVENT listener's start() was admitted on the run thread, which then clears its own wake-up
           pendingStart = FALSE, \* an accepted start() has written STARTING and the run thread has not yet acted on it
           cleaned = FALSE,      \* cleanup() has written NOT_INITIALIZED
+          selfCleanup = FALSE,  \* history: cleanup() ran on the run thread, which afterwards writes STOPPED over NOT_INITIALIZED
           usedStart = FALSE, usedStop = FALSE,   \* the listeners act once
           hret = "R1a",         \* where stop() on the run thread returns to: the run loop (handler) or W5 (START_EVENT listener)
           wrote = FALSE,        \* the command in progress has written shared state
@@ -43,7 +45,7 @@ variables rs = "INITIALIZED", rep = "INITIALIZED", runflag = FALSE, fin = FALSE,
           last = [t |-> "-", k |-> "-", v |-> "-", x |-> "-"];   \* the access just performed (binding)
 
 define
-  InRunLoop(p) == p \in {"R0", "R1a", "R1b", "R_body", "R_fault", "R_end1", "R_end2"} \/ (p \in {"H1a", "H1b", "H3", "H4f", "H4s"} /\ hret = "R1a")
+  InRunLoop(p) == p \in {"R0", "R1a", "R1b", "R_body", "R_fault", "R_end1", "R_end2", "J1", "J2f", "J2s", "J3", "J4", "J5", "J6"} \/ (p \in {"H1a", "H1b", "H3", "H4f", "H4s"} /\ hret = "R1a")
   PostRun(p) == p \in {"W7", "W8", "W9a", "W9b", "W9c", "W_clear", "W_loop", "W_wait", "L1a", "L1b", "L2", "L3a", "L3b", "L5", "L6a", "L6b", "L8", "L9r", "L9s", "L10"}
   WBlocked == pc["w"] = "W_woke" /\ ~flag
   WDone == pc["w"] = "Done"
@@ -94,6 +96,7 @@ R_body:
     afterStop := IF afterStop >= 0 THEN afterStop + 1 ELSE afterStop;
     if cur \in Faulty then goto R_fault;
     elsif cur \in Stoppers then goto H1a;
+    elsif cur \in Cleaners then goto J1;
     else goto R1a; end if;
   else    \* nothing left within the bound (= the replication end): ENDING, STOPPING, return
     rep := "ENDING"; Acc("w", "W", "rep", "ENDING");
@@ -123,6 +126,28 @@ H4s:
     wtimedout := TRUE; Acc("w", "sleep", "timeout", "-");
   end either;
   goto H4f;
+J1:       \* the handler calls cleanup(): _stop_impl() ...
+  selfCleanup := TRUE;
+  rs := "STOPPING"; wtimedout := FALSE; afterStop := 0; pendingStart := FALSE; Acc("w", "W", "rs", "STOPPING");
+J2f:      \* ... waits for the run thread (itself) until a second has passed
+  AccB("w", "R", "fin", fin);
+  if fin \/ wtimedout then goto J3; end if;
+J2s:
+  either
+    Acc("w", "sleep", "-", "-");
+  or
+    wtimedout := TRUE; Acc("w", "sleep", "timeout", "-");
+  end either;
+  goto J2f;
+J3:       \* worker.cleanup()
+  fin := TRUE; AccB("w", "W", "fin", TRUE);
+J4:
+  flag := TRUE; Acc("w", "ev", "set", "-");
+J5:
+  rs := "NOT_INITIALIZED"; afterStop := -1; Acc("w", "W", "rs", "NOT_INITIALIZED");
+J6:
+  rep := "NOT_INITIALIZED"; cleaned := TRUE; Acc("w", "W", "rep", "NOT_INITIALIZED");
+  goto R1a;
 R_fault:  \* WARN_AND_PAUSE: self._run_state = STOPPING
   rs := "STOPPING"; Acc("w", "W", "rs", "STOPPING");
   goto R1a;
@@ -319,11 +344,11 @@ end algorithm; *)
 \* BEGIN TRANSLATION
 VARIABLES pc, rs, rep, runflag, fin, flag, next, cur, endsOK, res, startsOK, 
           segments, lateStop, staleStart, lateEnd, staleEnd, earlyStop, 
-          selfStart, pendingStart, cleaned, usedStart, usedStop, hret, wrote, 
-          afterStop, ctimedout, wtimedout, last
+          selfStart, pendingStart, cleaned, selfCleanup, usedStart, usedStop, 
+          hret, wrote, afterStop, ctimedout, wtimedout, last
 
 (* define statement *)
-InRunLoop(p) == p \in {"R0", "R1a", "R1b", "R_body", "R_fault", "R_end1", "R_end2"} \/ (p \in {"H1a", "H1b", "H3", "H4f", "H4s"} /\ hret = "R1a")
+InRunLoop(p) == p \in {"R0", "R1a", "R1b", "R_body", "R_fault", "R_end1", "R_end2", "J1", "J2f", "J2s", "J3", "J4", "J5", "J6"} \/ (p \in {"H1a", "H1b", "H3", "H4f", "H4s"} /\ hret = "R1a")
 PostRun(p) == p \in {"W7", "W8", "W9a", "W9b", "W9c", "W_clear", "W_loop", "W_wait", "L1a", "L1b", "L2", "L3a", "L3b", "L5", "L6a", "L6b", "L8", "L9r", "L9s", "L10"}
 WBlocked == pc["w"] = "W_woke" /\ ~flag
 WDone == pc["w"] = "Done"
@@ -332,8 +357,8 @@ VARIABLES i, ok
 
 vars == << pc, rs, rep, runflag, fin, flag, next, cur, endsOK, res, startsOK, 
            segments, lateStop, staleStart, lateEnd, staleEnd, earlyStop, 
-           selfStart, pendingStart, cleaned, usedStart, usedStop, hret, wrote, 
-           afterStop, ctimedout, wtimedout, last, i, ok >>
+           selfStart, pendingStart, cleaned, selfCleanup, usedStart, usedStop, 
+           hret, wrote, afterStop, ctimedout, wtimedout, last, i, ok >>
 
 ProcSet == {"w"} \cup {"c"}
 
@@ -357,6 +382,7 @@ Init == (* Global variables *)
         /\ selfStart = FALSE
         /\ pendingStart = FALSE
         /\ cleaned = FALSE
+        /\ selfCleanup = FALSE
         /\ usedStart = FALSE
         /\ usedStop = FALSE
         /\ hret = "R1a"
@@ -380,8 +406,8 @@ W_woke == /\ pc["w"] = "W_woke"
           /\ UNCHANGED << rs, rep, runflag, fin, flag, next, cur, endsOK, res, 
                           startsOK, segments, lateStop, staleStart, lateEnd, 
                           staleEnd, earlyStop, selfStart, pendingStart, 
-                          cleaned, usedStart, usedStop, hret, wrote, afterStop, 
-                          ctimedout, wtimedout, i, ok >>
+                          cleaned, selfCleanup, usedStart, usedStop, hret, 
+                          wrote, afterStop, ctimedout, wtimedout, i, ok >>
 
 W_clear0 == /\ pc["w"] = "W_clear0"
             /\ flag' = FALSE
@@ -390,8 +416,8 @@ W_clear0 == /\ pc["w"] = "W_clear0"
             /\ UNCHANGED << rs, rep, runflag, fin, next, cur, endsOK, res, 
                             startsOK, segments, lateStop, staleStart, lateEnd, 
                             staleEnd, earlyStop, selfStart, pendingStart, 
-                            cleaned, usedStart, usedStop, hret, wrote, 
-                            afterStop, ctimedout, wtimedout, i, ok >>
+                            cleaned, selfCleanup, usedStart, usedStop, hret, 
+                            wrote, afterStop, ctimedout, wtimedout, i, ok >>
 
 W2 == /\ pc["w"] = "W2"
       /\ last' = [t |-> "w", k |-> "R", v |-> "fin", x |-> IF fin THEN "True" ELSE "False"]
@@ -403,8 +429,8 @@ W2 == /\ pc["w"] = "W2"
       /\ UNCHANGED << rs, rep, runflag, fin, flag, next, cur, endsOK, res, 
                       startsOK, segments, lateStop, staleStart, lateEnd, 
                       staleEnd, earlyStop, selfStart, pendingStart, cleaned, 
-                      usedStart, usedStop, hret, wrote, afterStop, ctimedout, 
-                      wtimedout, i, ok >>
+                      selfCleanup, usedStart, usedStop, hret, wrote, afterStop, 
+                      ctimedout, wtimedout, i, ok >>
 
 W3 == /\ pc["w"] = "W3"
       /\ last' = [t |-> "w", k |-> "R", v |-> "rep", x |-> rep]
@@ -420,7 +446,8 @@ W3 == /\ pc["w"] = "W3"
       /\ UNCHANGED << rs, rep, runflag, fin, flag, next, cur, endsOK, res, 
                       startsOK, segments, lateStop, staleStart, lateEnd, 
                       staleEnd, earlyStop, selfStart, pendingStart, cleaned, 
-                      usedStop, wrote, afterStop, ctimedout, wtimedout, i, ok >>
+                      selfCleanup, usedStop, wrote, afterStop, ctimedout, 
+                      wtimedout, i, ok >>
 
 W5 == /\ pc["w"] = "W5"
       /\ rs' = "STARTED"
@@ -429,8 +456,8 @@ W5 == /\ pc["w"] = "W5"
       /\ UNCHANGED << rep, runflag, fin, flag, next, cur, endsOK, res, 
                       startsOK, segments, lateStop, staleStart, lateEnd, 
                       staleEnd, earlyStop, selfStart, pendingStart, cleaned, 
-                      usedStart, usedStop, hret, wrote, afterStop, ctimedout, 
-                      wtimedout, i, ok >>
+                      selfCleanup, usedStart, usedStop, hret, wrote, afterStop, 
+                      ctimedout, wtimedout, i, ok >>
 
 R0 == /\ pc["w"] = "R0"
       /\ runflag' = TRUE
@@ -440,8 +467,8 @@ R0 == /\ pc["w"] = "R0"
       /\ pc' = [pc EXCEPT !["w"] = "R1a"]
       /\ UNCHANGED << rs, rep, fin, flag, next, cur, endsOK, res, startsOK, 
                       lateStop, staleStart, lateEnd, staleEnd, earlyStop, 
-                      selfStart, cleaned, usedStart, usedStop, hret, wrote, 
-                      afterStop, ctimedout, wtimedout, i, ok >>
+                      selfStart, cleaned, selfCleanup, usedStart, usedStop, 
+                      hret, wrote, afterStop, ctimedout, wtimedout, i, ok >>
 
 R1a == /\ pc["w"] = "R1a"
        /\ last' = [t |-> "w", k |-> "R", v |-> "rs", x |-> rs]
@@ -457,8 +484,9 @@ R1a == /\ pc["w"] = "R1a"
                   /\ UNCHANGED << next, cur, pendingStart >>
        /\ UNCHANGED << rs, rep, runflag, fin, flag, endsOK, res, startsOK, 
                        segments, lateStop, staleStart, lateEnd, staleEnd, 
-                       earlyStop, selfStart, cleaned, usedStart, usedStop, 
-                       hret, wrote, afterStop, ctimedout, wtimedout, i, ok >>
+                       earlyStop, selfStart, cleaned, selfCleanup, usedStart, 
+                       usedStop, hret, wrote, afterStop, ctimedout, wtimedout, 
+                       i, ok >>
 
 R1b == /\ pc["w"] = "R1b"
        /\ last' = [t |-> "w", k |-> "R", v |-> "rs", x |-> rs]
@@ -478,8 +506,9 @@ R1b == /\ pc["w"] = "R1b"
                   /\ UNCHANGED usedStop
        /\ UNCHANGED << rs, rep, runflag, fin, flag, endsOK, res, startsOK, 
                        segments, lateStop, staleStart, lateEnd, staleEnd, 
-                       earlyStop, selfStart, pendingStart, cleaned, usedStart, 
-                       hret, wrote, afterStop, ctimedout, wtimedout, i, ok >>
+                       earlyStop, selfStart, pendingStart, cleaned, 
+                       selfCleanup, usedStart, hret, wrote, afterStop, 
+                       ctimedout, wtimedout, i, ok >>
 
 R_body == /\ pc["w"] = "R_body"
           /\ IF cur # 0
@@ -489,7 +518,9 @@ R_body == /\ pc["w"] = "R_body"
                            THEN /\ pc' = [pc EXCEPT !["w"] = "R_fault"]
                            ELSE /\ IF cur \in Stoppers
                                       THEN /\ pc' = [pc EXCEPT !["w"] = "H1a"]
-                                      ELSE /\ pc' = [pc EXCEPT !["w"] = "R1a"]
+                                      ELSE /\ IF cur \in Cleaners
+                                                 THEN /\ pc' = [pc EXCEPT !["w"] = "J1"]
+                                                 ELSE /\ pc' = [pc EXCEPT !["w"] = "R1a"]
                      /\ rep' = rep
                 ELSE /\ rep' = "ENDING"
                      /\ last' = [t |-> "w", k |-> "W", v |-> "rep", x |-> "ENDING"]
@@ -498,8 +529,8 @@ R_body == /\ pc["w"] = "R_body"
           /\ UNCHANGED << rs, runflag, fin, flag, next, cur, endsOK, res, 
                           startsOK, segments, lateStop, staleStart, lateEnd, 
                           staleEnd, earlyStop, selfStart, pendingStart, 
-                          cleaned, usedStart, usedStop, hret, wrote, ctimedout, 
-                          wtimedout, i, ok >>
+                          cleaned, selfCleanup, usedStart, usedStop, hret, 
+                          wrote, ctimedout, wtimedout, i, ok >>
 
 H1a == /\ pc["w"] = "H1a"
        /\ last' = [t |-> "w", k |-> "R", v |-> "rs", x |-> rs]
@@ -509,8 +540,8 @@ H1a == /\ pc["w"] = "H1a"
        /\ UNCHANGED << rs, rep, runflag, fin, flag, next, cur, endsOK, res, 
                        startsOK, segments, lateStop, staleStart, lateEnd, 
                        staleEnd, earlyStop, selfStart, pendingStart, cleaned, 
-                       usedStart, usedStop, hret, wrote, afterStop, ctimedout, 
-                       wtimedout, i, ok >>
+                       selfCleanup, usedStart, usedStop, hret, wrote, 
+                       afterStop, ctimedout, wtimedout, i, ok >>
 
 H1b == /\ pc["w"] = "H1b"
        /\ last' = [t |-> "w", k |-> "R", v |-> "rs", x |-> rs]
@@ -525,8 +556,8 @@ H1b == /\ pc["w"] = "H1b"
        /\ UNCHANGED << rs, rep, runflag, fin, flag, next, cur, endsOK, res, 
                        startsOK, segments, lateStop, staleStart, lateEnd, 
                        staleEnd, earlyStop, selfStart, pendingStart, cleaned, 
-                       usedStart, usedStop, wrote, afterStop, ctimedout, 
-                       wtimedout, i, ok >>
+                       selfCleanup, usedStart, usedStop, wrote, afterStop, 
+                       ctimedout, wtimedout, i, ok >>
 
 H3 == /\ pc["w"] = "H3"
       /\ earlyStop' = (earlyStop \/ hret = "W5")
@@ -537,8 +568,8 @@ H3 == /\ pc["w"] = "H3"
       /\ pc' = [pc EXCEPT !["w"] = "H4f"]
       /\ UNCHANGED << rep, runflag, fin, flag, next, cur, endsOK, res, 
                       startsOK, segments, lateStop, staleStart, lateEnd, 
-                      staleEnd, selfStart, pendingStart, cleaned, usedStart, 
-                      usedStop, hret, wrote, ctimedout, i, ok >>
+                      staleEnd, selfStart, pendingStart, cleaned, selfCleanup, 
+                      usedStart, usedStop, hret, wrote, ctimedout, i, ok >>
 
 H4f == /\ pc["w"] = "H4f"
        /\ last' = [t |-> "w", k |-> "R", v |-> "fin", x |-> IF fin THEN "True" ELSE "False"]
@@ -553,8 +584,8 @@ H4f == /\ pc["w"] = "H4f"
        /\ UNCHANGED << rs, rep, runflag, fin, flag, next, cur, endsOK, res, 
                        startsOK, segments, lateStop, staleStart, lateEnd, 
                        staleEnd, earlyStop, selfStart, pendingStart, cleaned, 
-                       usedStart, usedStop, wrote, afterStop, ctimedout, 
-                       wtimedout, i, ok >>
+                       selfCleanup, usedStart, usedStop, wrote, afterStop, 
+                       ctimedout, wtimedout, i, ok >>
 
 H4s == /\ pc["w"] = "H4s"
        /\ \/ /\ last' = [t |-> "w", k |-> "sleep", v |-> "-", x |-> "-"]
@@ -565,8 +596,86 @@ H4s == /\ pc["w"] = "H4s"
        /\ UNCHANGED << rs, rep, runflag, fin, flag, next, cur, endsOK, res, 
                        startsOK, segments, lateStop, staleStart, lateEnd, 
                        staleEnd, earlyStop, selfStart, pendingStart, cleaned, 
-                       usedStart, usedStop, hret, wrote, afterStop, ctimedout, 
-                       i, ok >>
+                       selfCleanup, usedStart, usedStop, hret, wrote, 
+                       afterStop, ctimedout, i, ok >>
+
+J1 == /\ pc["w"] = "J1"
+      /\ selfCleanup' = TRUE
+      /\ rs' = "STOPPING"
+      /\ wtimedout' = FALSE
+      /\ afterStop' = 0
+      /\ pendingStart' = FALSE
+      /\ last' = [t |-> "w", k |-> "W", v |-> "rs", x |-> "STOPPING"]
+      /\ pc' = [pc EXCEPT !["w"] = "J2f"]
+      /\ UNCHANGED << rep, runflag, fin, flag, next, cur, endsOK, res, 
+                      startsOK, segments, lateStop, staleStart, lateEnd, 
+                      staleEnd, earlyStop, selfStart, cleaned, usedStart, 
+                      usedStop, hret, wrote, ctimedout, i, ok >>
+
+J2f == /\ pc["w"] = "J2f"
+       /\ last' = [t |-> "w", k |-> "R", v |-> "fin", x |-> IF fin THEN "True" ELSE "False"]
+       /\ IF fin \/ wtimedout
+             THEN /\ pc' = [pc EXCEPT !["w"] = "J3"]
+             ELSE /\ pc' = [pc EXCEPT !["w"] = "J2s"]
+       /\ UNCHANGED << rs, rep, runflag, fin, flag, next, cur, endsOK, res, 
+                       startsOK, segments, lateStop, staleStart, lateEnd, 
+                       staleEnd, earlyStop, selfStart, pendingStart, cleaned, 
+                       selfCleanup, usedStart, usedStop, hret, wrote, 
+                       afterStop, ctimedout, wtimedout, i, ok >>
+
+J2s == /\ pc["w"] = "J2s"
+       /\ \/ /\ last' = [t |-> "w", k |-> "sleep", v |-> "-", x |-> "-"]
+             /\ UNCHANGED wtimedout
+          \/ /\ wtimedout' = TRUE
+             /\ last' = [t |-> "w", k |-> "sleep", v |-> "timeout", x |-> "-"]
+       /\ pc' = [pc EXCEPT !["w"] = "J2f"]
+       /\ UNCHANGED << rs, rep, runflag, fin, flag, next, cur, endsOK, res, 
+                       startsOK, segments, lateStop, staleStart, lateEnd, 
+                       staleEnd, earlyStop, selfStart, pendingStart, cleaned, 
+                       selfCleanup, usedStart, usedStop, hret, wrote, 
+                       afterStop, ctimedout, i, ok >>
+
+J3 == /\ pc["w"] = "J3"
+      /\ fin' = TRUE
+      /\ last' = [t |-> "w", k |-> "W", v |-> "fin", x |-> IF TRUE THEN "True" ELSE "False"]
+      /\ pc' = [pc EXCEPT !["w"] = "J4"]
+      /\ UNCHANGED << rs, rep, runflag, flag, next, cur, endsOK, res, startsOK, 
+                      segments, lateStop, staleStart, lateEnd, staleEnd, 
+                      earlyStop, selfStart, pendingStart, cleaned, selfCleanup, 
+                      usedStart, usedStop, hret, wrote, afterStop, ctimedout, 
+                      wtimedout, i, ok >>
+
+J4 == /\ pc["w"] = "J4"
+      /\ flag' = TRUE
+      /\ last' = [t |-> "w", k |-> "ev", v |-> "set", x |-> "-"]
+      /\ pc' = [pc EXCEPT !["w"] = "J5"]
+      /\ UNCHANGED << rs, rep, runflag, fin, next, cur, endsOK, res, startsOK, 
+                      segments, lateStop, staleStart, lateEnd, staleEnd, 
+                      earlyStop, selfStart, pendingStart, cleaned, selfCleanup, 
+                      usedStart, usedStop, hret, wrote, afterStop, ctimedout, 
+                      wtimedout, i, ok >>
+
+J5 == /\ pc["w"] = "J5"
+      /\ rs' = "NOT_INITIALIZED"
+      /\ afterStop' = -1
+      /\ last' = [t |-> "w", k |-> "W", v |-> "rs", x |-> "NOT_INITIALIZED"]
+      /\ pc' = [pc EXCEPT !["w"] = "J6"]
+      /\ UNCHANGED << rep, runflag, fin, flag, next, cur, endsOK, res, 
+                      startsOK, segments, lateStop, staleStart, lateEnd, 
+                      staleEnd, earlyStop, selfStart, pendingStart, cleaned, 
+                      selfCleanup, usedStart, usedStop, hret, wrote, ctimedout, 
+                      wtimedout, i, ok >>
+
+J6 == /\ pc["w"] = "J6"
+      /\ rep' = "NOT_INITIALIZED"
+      /\ cleaned' = TRUE
+      /\ last' = [t |-> "w", k |-> "W", v |-> "rep", x |-> "NOT_INITIALIZED"]
+      /\ pc' = [pc EXCEPT !["w"] = "R1a"]
+      /\ UNCHANGED << rs, runflag, fin, flag, next, cur, endsOK, res, startsOK, 
+                      segments, lateStop, staleStart, lateEnd, staleEnd, 
+                      earlyStop, selfStart, pendingStart, selfCleanup, 
+                      usedStart, usedStop, hret, wrote, afterStop, ctimedout, 
+                      wtimedout, i, ok >>
 
 R_fault == /\ pc["w"] = "R_fault"
            /\ rs' = "STOPPING"
@@ -575,8 +684,8 @@ R_fault == /\ pc["w"] = "R_fault"
            /\ UNCHANGED << rep, runflag, fin, flag, next, cur, endsOK, res, 
                            startsOK, segments, lateStop, staleStart, lateEnd, 
                            staleEnd, earlyStop, selfStart, pendingStart, 
-                           cleaned, usedStart, usedStop, hret, wrote, 
-                           afterStop, ctimedout, wtimedout, i, ok >>
+                           cleaned, selfCleanup, usedStart, usedStop, hret, 
+                           wrote, afterStop, ctimedout, wtimedout, i, ok >>
 
 R_end2 == /\ pc["w"] = "R_end2"
           /\ rs' = "STOPPING"
@@ -589,8 +698,8 @@ R_end2 == /\ pc["w"] = "R_end2"
           /\ UNCHANGED << rep, runflag, fin, flag, next, cur, endsOK, res, 
                           startsOK, segments, lateStop, staleStart, lateEnd, 
                           staleEnd, earlyStop, selfStart, pendingStart, 
-                          cleaned, usedStart, hret, wrote, afterStop, 
-                          ctimedout, wtimedout, i, ok >>
+                          cleaned, selfCleanup, usedStart, hret, wrote, 
+                          afterStop, ctimedout, wtimedout, i, ok >>
 
 L1a == /\ pc["w"] = "L1a"
        /\ last' = [t |-> "w", k |-> "R", v |-> "rs", x |-> rs]
@@ -600,8 +709,8 @@ L1a == /\ pc["w"] = "L1a"
        /\ UNCHANGED << rs, rep, runflag, fin, flag, next, cur, endsOK, res, 
                        startsOK, segments, lateStop, staleStart, lateEnd, 
                        staleEnd, earlyStop, selfStart, pendingStart, cleaned, 
-                       usedStart, usedStop, hret, wrote, afterStop, ctimedout, 
-                       wtimedout, i, ok >>
+                       selfCleanup, usedStart, usedStop, hret, wrote, 
+                       afterStop, ctimedout, wtimedout, i, ok >>
 
 L1b == /\ pc["w"] = "L1b"
        /\ last' = [t |-> "w", k |-> "R", v |-> "rs", x |-> rs]
@@ -611,8 +720,8 @@ L1b == /\ pc["w"] = "L1b"
        /\ UNCHANGED << rs, rep, runflag, fin, flag, next, cur, endsOK, res, 
                        startsOK, segments, lateStop, staleStart, lateEnd, 
                        staleEnd, earlyStop, selfStart, pendingStart, cleaned, 
-                       usedStart, usedStop, hret, wrote, afterStop, ctimedout, 
-                       wtimedout, i, ok >>
+                       selfCleanup, usedStart, usedStop, hret, wrote, 
+                       afterStop, ctimedout, wtimedout, i, ok >>
 
 L2 == /\ pc["w"] = "L2"
       /\ last' = [t |-> "w", k |-> "R", v |-> "rs", x |-> rs]
@@ -622,8 +731,8 @@ L2 == /\ pc["w"] = "L2"
       /\ UNCHANGED << rs, rep, runflag, fin, flag, next, cur, endsOK, res, 
                       startsOK, segments, lateStop, staleStart, lateEnd, 
                       staleEnd, earlyStop, selfStart, pendingStart, cleaned, 
-                      usedStart, usedStop, hret, wrote, afterStop, ctimedout, 
-                      wtimedout, i, ok >>
+                      selfCleanup, usedStart, usedStop, hret, wrote, afterStop, 
+                      ctimedout, wtimedout, i, ok >>
 
 L3a == /\ pc["w"] = "L3a"
        /\ last' = [t |-> "w", k |-> "R", v |-> "rep", x |-> rep]
@@ -633,8 +742,8 @@ L3a == /\ pc["w"] = "L3a"
        /\ UNCHANGED << rs, rep, runflag, fin, flag, next, cur, endsOK, res, 
                        startsOK, segments, lateStop, staleStart, lateEnd, 
                        staleEnd, earlyStop, selfStart, pendingStart, cleaned, 
-                       usedStart, usedStop, hret, wrote, afterStop, ctimedout, 
-                       wtimedout, i, ok >>
+                       selfCleanup, usedStart, usedStop, hret, wrote, 
+                       afterStop, ctimedout, wtimedout, i, ok >>
 
 L3b == /\ pc["w"] = "L3b"
        /\ last' = [t |-> "w", k |-> "R", v |-> "rep", x |-> rep]
@@ -644,8 +753,8 @@ L3b == /\ pc["w"] = "L3b"
        /\ UNCHANGED << rs, rep, runflag, fin, flag, next, cur, endsOK, res, 
                        startsOK, segments, lateStop, staleStart, lateEnd, 
                        staleEnd, earlyStop, selfStart, pendingStart, cleaned, 
-                       usedStart, usedStop, hret, wrote, afterStop, ctimedout, 
-                       wtimedout, i, ok >>
+                       selfCleanup, usedStart, usedStop, hret, wrote, 
+                       afterStop, ctimedout, wtimedout, i, ok >>
 
 L5 == /\ pc["w"] = "L5"
       /\ selfStart' = TRUE
@@ -656,8 +765,8 @@ L5 == /\ pc["w"] = "L5"
       /\ pc' = [pc EXCEPT !["w"] = "L6a"]
       /\ UNCHANGED << rep, runflag, fin, flag, next, cur, endsOK, res, 
                       startsOK, segments, lateStop, staleStart, lateEnd, 
-                      staleEnd, earlyStop, cleaned, usedStart, usedStop, hret, 
-                      wrote, ctimedout, wtimedout, i, ok >>
+                      staleEnd, earlyStop, cleaned, selfCleanup, usedStart, 
+                      usedStop, hret, wrote, ctimedout, wtimedout, i, ok >>
 
 L6a == /\ pc["w"] = "L6a"
        /\ last' = [t |-> "w", k |-> "R", v |-> "rep", x |-> rep]
@@ -667,8 +776,8 @@ L6a == /\ pc["w"] = "L6a"
        /\ UNCHANGED << rs, rep, runflag, fin, flag, next, cur, endsOK, res, 
                        startsOK, segments, lateStop, staleStart, lateEnd, 
                        staleEnd, earlyStop, selfStart, pendingStart, cleaned, 
-                       usedStart, usedStop, hret, wrote, afterStop, ctimedout, 
-                       wtimedout, i, ok >>
+                       selfCleanup, usedStart, usedStop, hret, wrote, 
+                       afterStop, ctimedout, wtimedout, i, ok >>
 
 L6b == /\ pc["w"] = "L6b"
        /\ rep' = "STARTED"
@@ -677,8 +786,8 @@ L6b == /\ pc["w"] = "L6b"
        /\ UNCHANGED << rs, runflag, fin, flag, next, cur, endsOK, res, 
                        startsOK, segments, lateStop, staleStart, lateEnd, 
                        staleEnd, earlyStop, selfStart, pendingStart, cleaned, 
-                       usedStart, usedStop, hret, wrote, afterStop, ctimedout, 
-                       wtimedout, i, ok >>
+                       selfCleanup, usedStart, usedStop, hret, wrote, 
+                       afterStop, ctimedout, wtimedout, i, ok >>
 
 L8 == /\ pc["w"] = "L8"
       /\ flag' = TRUE
@@ -687,8 +796,9 @@ L8 == /\ pc["w"] = "L8"
       /\ pc' = [pc EXCEPT !["w"] = "L9r"]
       /\ UNCHANGED << rs, rep, runflag, fin, next, cur, endsOK, res, startsOK, 
                       segments, lateStop, staleStart, lateEnd, staleEnd, 
-                      earlyStop, selfStart, pendingStart, cleaned, usedStart, 
-                      usedStop, hret, wrote, afterStop, ctimedout, i, ok >>
+                      earlyStop, selfStart, pendingStart, cleaned, selfCleanup, 
+                      usedStart, usedStop, hret, wrote, afterStop, ctimedout, 
+                      i, ok >>
 
 L9r == /\ pc["w"] = "L9r"
        /\ last' = [t |-> "w", k |-> "R", v |-> "runflag", x |-> IF runflag THEN "True" ELSE "False"]
@@ -698,8 +808,8 @@ L9r == /\ pc["w"] = "L9r"
        /\ UNCHANGED << rs, rep, runflag, fin, flag, next, cur, endsOK, res, 
                        startsOK, segments, lateStop, staleStart, lateEnd, 
                        staleEnd, earlyStop, selfStart, pendingStart, cleaned, 
-                       usedStart, usedStop, hret, wrote, afterStop, ctimedout, 
-                       wtimedout, i, ok >>
+                       selfCleanup, usedStart, usedStop, hret, wrote, 
+                       afterStop, ctimedout, wtimedout, i, ok >>
 
 L9s == /\ pc["w"] = "L9s"
        /\ \/ /\ last' = [t |-> "w", k |-> "sleep", v |-> "-", x |-> "-"]
@@ -710,8 +820,8 @@ L9s == /\ pc["w"] = "L9s"
        /\ UNCHANGED << rs, rep, runflag, fin, flag, next, cur, endsOK, res, 
                        startsOK, segments, lateStop, staleStart, lateEnd, 
                        staleEnd, earlyStop, selfStart, pendingStart, cleaned, 
-                       usedStart, usedStop, hret, wrote, afterStop, ctimedout, 
-                       i, ok >>
+                       selfCleanup, usedStart, usedStop, hret, wrote, 
+                       afterStop, ctimedout, i, ok >>
 
 L10 == /\ pc["w"] = "L10"
        /\ runflag' = FALSE
@@ -720,8 +830,9 @@ L10 == /\ pc["w"] = "L10"
        /\ pc' = [pc EXCEPT !["w"] = "W7"]
        /\ UNCHANGED << rs, rep, fin, flag, next, cur, endsOK, res, segments, 
                        lateStop, staleStart, lateEnd, staleEnd, earlyStop, 
-                       selfStart, pendingStart, cleaned, usedStart, usedStop, 
-                       hret, wrote, afterStop, ctimedout, wtimedout, i, ok >>
+                       selfStart, pendingStart, cleaned, selfCleanup, 
+                       usedStart, usedStop, hret, wrote, afterStop, ctimedout, 
+                       wtimedout, i, ok >>
 
 W7 == /\ pc["w"] = "W7"
       /\ rs' = "STOPPED"
@@ -731,8 +842,8 @@ W7 == /\ pc["w"] = "W7"
       /\ UNCHANGED << rep, runflag, fin, flag, next, cur, endsOK, res, 
                       startsOK, segments, lateStop, staleStart, lateEnd, 
                       staleEnd, earlyStop, selfStart, pendingStart, cleaned, 
-                      usedStart, usedStop, hret, wrote, ctimedout, wtimedout, 
-                      i, ok >>
+                      selfCleanup, usedStart, usedStop, hret, wrote, ctimedout, 
+                      wtimedout, i, ok >>
 
 W8 == /\ pc["w"] = "W8"
       /\ last' = [t |-> "w", k |-> "R", v |-> "rep", x |-> rep]
@@ -744,8 +855,8 @@ W8 == /\ pc["w"] = "W8"
       /\ UNCHANGED << rs, rep, runflag, fin, flag, next, cur, endsOK, res, 
                       startsOK, segments, lateStop, staleStart, lateEnd, 
                       staleEnd, earlyStop, selfStart, pendingStart, cleaned, 
-                      usedStart, usedStop, hret, wrote, afterStop, ctimedout, 
-                      wtimedout, i, ok >>
+                      selfCleanup, usedStart, usedStop, hret, wrote, afterStop, 
+                      ctimedout, wtimedout, i, ok >>
 
 W9a == /\ pc["w"] = "W9a"
        /\ rep' = "ENDED"
@@ -754,9 +865,9 @@ W9a == /\ pc["w"] = "W9a"
        /\ pc' = [pc EXCEPT !["w"] = "W9b"]
        /\ UNCHANGED << rs, runflag, fin, flag, next, cur, endsOK, res, 
                        startsOK, segments, lateStop, staleStart, lateEnd, 
-                       staleEnd, earlyStop, selfStart, cleaned, usedStart, 
-                       usedStop, hret, wrote, afterStop, ctimedout, wtimedout, 
-                       i, ok >>
+                       staleEnd, earlyStop, selfStart, cleaned, selfCleanup, 
+                       usedStart, usedStop, hret, wrote, afterStop, ctimedout, 
+                       wtimedout, i, ok >>
 
 W9b == /\ pc["w"] = "W9b"
        /\ rs' = "ENDED"
@@ -765,8 +876,8 @@ W9b == /\ pc["w"] = "W9b"
        /\ UNCHANGED << rep, runflag, fin, flag, next, cur, endsOK, res, 
                        startsOK, segments, lateStop, staleStart, lateEnd, 
                        staleEnd, earlyStop, selfStart, pendingStart, cleaned, 
-                       usedStart, usedStop, hret, wrote, afterStop, ctimedout, 
-                       wtimedout, i, ok >>
+                       selfCleanup, usedStart, usedStop, hret, wrote, 
+                       afterStop, ctimedout, wtimedout, i, ok >>
 
 W9c == /\ pc["w"] = "W9c"
        /\ fin' = TRUE
@@ -777,8 +888,8 @@ W9c == /\ pc["w"] = "W9c"
        /\ UNCHANGED << rs, rep, runflag, flag, next, cur, endsOK, res, 
                        startsOK, segments, lateStop, staleStart, lateEnd, 
                        staleEnd, earlyStop, selfStart, pendingStart, cleaned, 
-                       usedStart, usedStop, hret, wrote, afterStop, ctimedout, 
-                       wtimedout, i, ok >>
+                       selfCleanup, usedStart, usedStop, hret, wrote, 
+                       afterStop, ctimedout, wtimedout, i, ok >>
 
 W_clear == /\ pc["w"] = "W_clear"
            /\ flag' = FALSE
@@ -787,8 +898,8 @@ W_clear == /\ pc["w"] = "W_clear"
            /\ UNCHANGED << rs, rep, runflag, fin, next, cur, endsOK, res, 
                            startsOK, segments, lateStop, staleStart, lateEnd, 
                            staleEnd, earlyStop, selfStart, pendingStart, 
-                           cleaned, usedStart, usedStop, hret, wrote, 
-                           afterStop, ctimedout, wtimedout, i, ok >>
+                           cleaned, selfCleanup, usedStart, usedStop, hret, 
+                           wrote, afterStop, ctimedout, wtimedout, i, ok >>
 
 W_loop == /\ pc["w"] = "W_loop"
           /\ last' = [t |-> "w", k |-> "R", v |-> "fin", x |-> IF fin THEN "True" ELSE "False"]
@@ -798,8 +909,8 @@ W_loop == /\ pc["w"] = "W_loop"
           /\ UNCHANGED << rs, rep, runflag, fin, flag, next, cur, endsOK, res, 
                           startsOK, segments, lateStop, staleStart, lateEnd, 
                           staleEnd, earlyStop, selfStart, pendingStart, 
-                          cleaned, usedStart, usedStop, hret, wrote, afterStop, 
-                          ctimedout, wtimedout, i, ok >>
+                          cleaned, selfCleanup, usedStart, usedStop, hret, 
+                          wrote, afterStop, ctimedout, wtimedout, i, ok >>
 
 W_wait == /\ pc["w"] = "W_wait"
           /\ last' = [t |-> "w", k |-> "ev", v |-> "wait", x |-> "-"]
@@ -807,14 +918,15 @@ W_wait == /\ pc["w"] = "W_wait"
           /\ UNCHANGED << rs, rep, runflag, fin, flag, next, cur, endsOK, res, 
                           startsOK, segments, lateStop, staleStart, lateEnd, 
                           staleEnd, earlyStop, selfStart, pendingStart, 
-                          cleaned, usedStart, usedStop, hret, wrote, afterStop, 
-                          ctimedout, wtimedout, i, ok >>
+                          cleaned, selfCleanup, usedStart, usedStop, hret, 
+                          wrote, afterStop, ctimedout, wtimedout, i, ok >>
 
 worker == W_woke \/ W_clear0 \/ W2 \/ W3 \/ W5 \/ R0 \/ R1a \/ R1b
-             \/ R_body \/ H1a \/ H1b \/ H3 \/ H4f \/ H4s \/ R_fault
-             \/ R_end2 \/ L1a \/ L1b \/ L2 \/ L3a \/ L3b \/ L5 \/ L6a
-             \/ L6b \/ L8 \/ L9r \/ L9s \/ L10 \/ W7 \/ W8 \/ W9a \/ W9b
-             \/ W9c \/ W_clear \/ W_loop \/ W_wait
+             \/ R_body \/ H1a \/ H1b \/ H3 \/ H4f \/ H4s \/ J1 \/ J2f
+             \/ J2s \/ J3 \/ J4 \/ J5 \/ J6 \/ R_fault \/ R_end2 \/ L1a
+             \/ L1b \/ L2 \/ L3a \/ L3b \/ L5 \/ L6a \/ L6b \/ L8 \/ L9r
+             \/ L9s \/ L10 \/ W7 \/ W8 \/ W9a \/ W9b \/ W9c \/ W_clear
+             \/ W_loop \/ W_wait
 
 C_next == /\ pc["c"] = "C_next"
           /\ wrote' = FALSE
@@ -830,8 +942,8 @@ C_next == /\ pc["c"] = "C_next"
           /\ UNCHANGED << rs, rep, runflag, fin, flag, next, cur, endsOK, res, 
                           startsOK, segments, lateStop, staleStart, lateEnd, 
                           staleEnd, earlyStop, selfStart, pendingStart, 
-                          cleaned, usedStart, usedStop, hret, afterStop, 
-                          ctimedout, wtimedout, i >>
+                          cleaned, selfCleanup, usedStart, usedStop, hret, 
+                          afterStop, ctimedout, wtimedout, i >>
 
 S1a == /\ pc["c"] = "S1a"
        /\ last' = [t |-> "c", k |-> "R", v |-> "rs", x |-> rs]
@@ -843,8 +955,8 @@ S1a == /\ pc["c"] = "S1a"
        /\ UNCHANGED << rs, rep, runflag, fin, flag, next, cur, endsOK, res, 
                        startsOK, segments, lateStop, staleStart, lateEnd, 
                        staleEnd, earlyStop, selfStart, pendingStart, cleaned, 
-                       usedStart, usedStop, hret, wrote, afterStop, ctimedout, 
-                       wtimedout, i >>
+                       selfCleanup, usedStart, usedStop, hret, wrote, 
+                       afterStop, ctimedout, wtimedout, i >>
 
 S1b == /\ pc["c"] = "S1b"
        /\ last' = [t |-> "c", k |-> "R", v |-> "rs", x |-> rs]
@@ -856,8 +968,8 @@ S1b == /\ pc["c"] = "S1b"
        /\ UNCHANGED << rs, rep, runflag, fin, flag, next, cur, endsOK, res, 
                        startsOK, segments, lateStop, staleStart, lateEnd, 
                        staleEnd, earlyStop, selfStart, pendingStart, cleaned, 
-                       usedStart, usedStop, hret, wrote, afterStop, ctimedout, 
-                       wtimedout, i >>
+                       selfCleanup, usedStart, usedStop, hret, wrote, 
+                       afterStop, ctimedout, wtimedout, i >>
 
 S2 == /\ pc["c"] = "S2"
       /\ last' = [t |-> "c", k |-> "R", v |-> "rs", x |-> rs]
@@ -871,8 +983,8 @@ S2 == /\ pc["c"] = "S2"
       /\ UNCHANGED << rs, rep, runflag, fin, flag, next, cur, endsOK, res, 
                       startsOK, segments, lateStop, staleStart, lateEnd, 
                       staleEnd, earlyStop, selfStart, pendingStart, cleaned, 
-                      usedStart, usedStop, hret, wrote, afterStop, ctimedout, 
-                      wtimedout, i >>
+                      selfCleanup, usedStart, usedStop, hret, wrote, afterStop, 
+                      ctimedout, wtimedout, i >>
 
 S2x == /\ pc["c"] = "S2x"
        /\ last' = [t |-> "c", k |-> "R", v |-> "rs", x |-> rs]
@@ -884,8 +996,8 @@ S2x == /\ pc["c"] = "S2x"
        /\ UNCHANGED << rs, rep, runflag, fin, flag, next, cur, endsOK, res, 
                        startsOK, segments, lateStop, staleStart, lateEnd, 
                        staleEnd, earlyStop, selfStart, pendingStart, cleaned, 
-                       usedStart, usedStop, hret, wrote, afterStop, ctimedout, 
-                       wtimedout, i >>
+                       selfCleanup, usedStart, usedStop, hret, wrote, 
+                       afterStop, ctimedout, wtimedout, i >>
 
 S3a == /\ pc["c"] = "S3a"
        /\ last' = [t |-> "c", k |-> "R", v |-> "rep", x |-> rep]
@@ -895,8 +1007,8 @@ S3a == /\ pc["c"] = "S3a"
        /\ UNCHANGED << rs, rep, runflag, fin, flag, next, cur, endsOK, res, 
                        startsOK, segments, lateStop, staleStart, lateEnd, 
                        staleEnd, earlyStop, selfStart, pendingStart, cleaned, 
-                       usedStart, usedStop, hret, wrote, afterStop, ctimedout, 
-                       wtimedout, i, ok >>
+                       selfCleanup, usedStart, usedStop, hret, wrote, 
+                       afterStop, ctimedout, wtimedout, i, ok >>
 
 S3b == /\ pc["c"] = "S3b"
        /\ last' = [t |-> "c", k |-> "R", v |-> "rep", x |-> rep]
@@ -908,8 +1020,8 @@ S3b == /\ pc["c"] = "S3b"
        /\ UNCHANGED << rs, rep, runflag, fin, flag, next, cur, endsOK, res, 
                        startsOK, segments, lateStop, staleStart, lateEnd, 
                        staleEnd, earlyStop, selfStart, pendingStart, cleaned, 
-                       usedStart, usedStop, hret, wrote, afterStop, ctimedout, 
-                       wtimedout, i >>
+                       selfCleanup, usedStart, usedStop, hret, wrote, 
+                       afterStop, ctimedout, wtimedout, i >>
 
 S5 == /\ pc["c"] = "S5"
       /\ staleStart' = (staleStart \/ PostRun(pc["w"]) \/ pc["w"] = "R1b")
@@ -921,8 +1033,8 @@ S5 == /\ pc["c"] = "S5"
       /\ pc' = [pc EXCEPT !["c"] = "S6a"]
       /\ UNCHANGED << rep, runflag, fin, flag, next, cur, endsOK, res, 
                       startsOK, segments, lateStop, lateEnd, staleEnd, 
-                      earlyStop, selfStart, cleaned, usedStart, usedStop, hret, 
-                      ctimedout, wtimedout, i, ok >>
+                      earlyStop, selfStart, cleaned, selfCleanup, usedStart, 
+                      usedStop, hret, ctimedout, wtimedout, i, ok >>
 
 S6a == /\ pc["c"] = "S6a"
        /\ last' = [t |-> "c", k |-> "R", v |-> "rep", x |-> rep]
@@ -932,8 +1044,8 @@ S6a == /\ pc["c"] = "S6a"
        /\ UNCHANGED << rs, rep, runflag, fin, flag, next, cur, endsOK, res, 
                        startsOK, segments, lateStop, staleStart, lateEnd, 
                        staleEnd, earlyStop, selfStart, pendingStart, cleaned, 
-                       usedStart, usedStop, hret, wrote, afterStop, ctimedout, 
-                       wtimedout, i, ok >>
+                       selfCleanup, usedStart, usedStop, hret, wrote, 
+                       afterStop, ctimedout, wtimedout, i, ok >>
 
 S6b == /\ pc["c"] = "S6b"
        /\ rep' = "STARTED"
@@ -942,8 +1054,8 @@ S6b == /\ pc["c"] = "S6b"
        /\ UNCHANGED << rs, runflag, fin, flag, next, cur, endsOK, res, 
                        startsOK, segments, lateStop, staleStart, lateEnd, 
                        staleEnd, earlyStop, selfStart, pendingStart, cleaned, 
-                       usedStart, usedStop, hret, wrote, afterStop, ctimedout, 
-                       wtimedout, i, ok >>
+                       selfCleanup, usedStart, usedStop, hret, wrote, 
+                       afterStop, ctimedout, wtimedout, i, ok >>
 
 S8 == /\ pc["c"] = "S8"
       /\ flag' = TRUE
@@ -952,8 +1064,9 @@ S8 == /\ pc["c"] = "S8"
       /\ pc' = [pc EXCEPT !["c"] = "S9r"]
       /\ UNCHANGED << rs, rep, runflag, fin, next, cur, endsOK, res, startsOK, 
                       segments, lateStop, staleStart, lateEnd, staleEnd, 
-                      earlyStop, selfStart, pendingStart, cleaned, usedStart, 
-                      usedStop, hret, wrote, afterStop, wtimedout, i, ok >>
+                      earlyStop, selfStart, pendingStart, cleaned, selfCleanup, 
+                      usedStart, usedStop, hret, wrote, afterStop, wtimedout, 
+                      i, ok >>
 
 S9r == /\ pc["c"] = "S9r"
        /\ last' = [t |-> "c", k |-> "R", v |-> "runflag", x |-> IF runflag THEN "True" ELSE "False"]
@@ -963,8 +1076,8 @@ S9r == /\ pc["c"] = "S9r"
        /\ UNCHANGED << rs, rep, runflag, fin, flag, next, cur, endsOK, res, 
                        startsOK, segments, lateStop, staleStart, lateEnd, 
                        staleEnd, earlyStop, selfStart, pendingStart, cleaned, 
-                       usedStart, usedStop, hret, wrote, afterStop, ctimedout, 
-                       wtimedout, i, ok >>
+                       selfCleanup, usedStart, usedStop, hret, wrote, 
+                       afterStop, ctimedout, wtimedout, i, ok >>
 
 S9s == /\ pc["c"] = "S9s"
        /\ \/ /\ last' = [t |-> "c", k |-> "sleep", v |-> "-", x |-> "-"]
@@ -976,8 +1089,8 @@ S9s == /\ pc["c"] = "S9s"
        /\ UNCHANGED << rs, rep, runflag, fin, flag, next, cur, endsOK, res, 
                        startsOK, segments, lateStop, staleStart, lateEnd, 
                        staleEnd, earlyStop, selfStart, pendingStart, cleaned, 
-                       usedStart, usedStop, hret, wrote, afterStop, wtimedout, 
-                       i, ok >>
+                       selfCleanup, usedStart, usedStop, hret, wrote, 
+                       afterStop, wtimedout, i, ok >>
 
 S10 == /\ pc["c"] = "S10"
        /\ runflag' = FALSE
@@ -986,8 +1099,9 @@ S10 == /\ pc["c"] = "S10"
        /\ pc' = [pc EXCEPT !["c"] = "C_ret"]
        /\ UNCHANGED << rs, rep, fin, flag, next, cur, endsOK, res, segments, 
                        lateStop, staleStart, lateEnd, staleEnd, earlyStop, 
-                       selfStart, pendingStart, cleaned, usedStart, usedStop, 
-                       hret, wrote, afterStop, ctimedout, wtimedout, i, ok >>
+                       selfStart, pendingStart, cleaned, selfCleanup, 
+                       usedStart, usedStop, hret, wrote, afterStop, ctimedout, 
+                       wtimedout, i, ok >>
 
 P1a == /\ pc["c"] = "P1a"
        /\ last' = [t |-> "c", k |-> "R", v |-> "rs", x |-> rs]
@@ -997,8 +1111,8 @@ P1a == /\ pc["c"] = "P1a"
        /\ UNCHANGED << rs, rep, runflag, fin, flag, next, cur, endsOK, res, 
                        startsOK, segments, lateStop, staleStart, lateEnd, 
                        staleEnd, earlyStop, selfStart, pendingStart, cleaned, 
-                       usedStart, usedStop, hret, wrote, afterStop, ctimedout, 
-                       wtimedout, i, ok >>
+                       selfCleanup, usedStart, usedStop, hret, wrote, 
+                       afterStop, ctimedout, wtimedout, i, ok >>
 
 P1b == /\ pc["c"] = "P1b"
        /\ last' = [t |-> "c", k |-> "R", v |-> "rs", x |-> rs]
@@ -1010,8 +1124,8 @@ P1b == /\ pc["c"] = "P1b"
        /\ UNCHANGED << rs, rep, runflag, fin, flag, next, cur, endsOK, res, 
                        startsOK, segments, lateStop, staleStart, lateEnd, 
                        staleEnd, earlyStop, selfStart, pendingStart, cleaned, 
-                       usedStart, usedStop, hret, wrote, afterStop, ctimedout, 
-                       wtimedout, i >>
+                       selfCleanup, usedStart, usedStop, hret, wrote, 
+                       afterStop, ctimedout, wtimedout, i >>
 
 P3 == /\ pc["c"] = "P3"
       /\ lateStop' = (lateStop \/ ~InRunLoop(pc["w"]) \/ pc["w"] = "R_end2")
@@ -1028,8 +1142,8 @@ P3 == /\ pc["c"] = "P3"
             ELSE /\ pc' = [pc EXCEPT !["c"] = "P4f"]
       /\ UNCHANGED << rep, runflag, fin, flag, next, cur, endsOK, res, 
                       startsOK, segments, staleStart, lateEnd, staleEnd, 
-                      earlyStop, selfStart, cleaned, usedStart, usedStop, hret, 
-                      wtimedout, i, ok >>
+                      earlyStop, selfStart, cleaned, selfCleanup, usedStart, 
+                      usedStop, hret, wtimedout, i, ok >>
 
 P4f == /\ pc["c"] = "P4f"
        /\ last' = [t |-> "c", k |-> "R", v |-> "fin", x |-> IF fin THEN "True" ELSE "False"]
@@ -1041,8 +1155,8 @@ P4f == /\ pc["c"] = "P4f"
        /\ UNCHANGED << rs, rep, runflag, fin, flag, next, cur, endsOK, res, 
                        startsOK, segments, lateStop, staleStart, lateEnd, 
                        staleEnd, earlyStop, selfStart, pendingStart, cleaned, 
-                       usedStart, usedStop, hret, wrote, afterStop, ctimedout, 
-                       wtimedout, i, ok >>
+                       selfCleanup, usedStart, usedStop, hret, wrote, 
+                       afterStop, ctimedout, wtimedout, i, ok >>
 
 P4s == /\ pc["c"] = "P4s"
        /\ \/ /\ last' = [t |-> "c", k |-> "sleep", v |-> "-", x |-> "-"]
@@ -1063,8 +1177,8 @@ P4s == /\ pc["c"] = "P4s"
        /\ UNCHANGED << rs, rep, runflag, fin, flag, next, cur, endsOK, res, 
                        startsOK, segments, lateStop, staleStart, lateEnd, 
                        staleEnd, earlyStop, selfStart, pendingStart, cleaned, 
-                       usedStart, usedStop, hret, wrote, afterStop, wtimedout, 
-                       i, ok >>
+                       selfCleanup, usedStart, usedStop, hret, wrote, 
+                       afterStop, wtimedout, i, ok >>
 
 P5a == /\ pc["c"] = "P5a"
        /\ last' = [t |-> "c", k |-> "R", v |-> "rs", x |-> rs]
@@ -1074,8 +1188,8 @@ P5a == /\ pc["c"] = "P5a"
        /\ UNCHANGED << rs, rep, runflag, fin, flag, next, cur, endsOK, res, 
                        startsOK, segments, lateStop, staleStart, lateEnd, 
                        staleEnd, earlyStop, selfStart, pendingStart, cleaned, 
-                       usedStart, usedStop, hret, wrote, afterStop, ctimedout, 
-                       wtimedout, i, ok >>
+                       selfCleanup, usedStart, usedStop, hret, wrote, 
+                       afterStop, ctimedout, wtimedout, i, ok >>
 
 P5b == /\ pc["c"] = "P5b"
        /\ last' = [t |-> "c", k |-> "R", v |-> "rep", x |-> rep]
@@ -1085,8 +1199,8 @@ P5b == /\ pc["c"] = "P5b"
        /\ UNCHANGED << rs, rep, runflag, fin, flag, next, cur, endsOK, res, 
                        startsOK, segments, lateStop, staleStart, lateEnd, 
                        staleEnd, earlyStop, selfStart, pendingStart, cleaned, 
-                       usedStart, usedStop, hret, wrote, afterStop, ctimedout, 
-                       wtimedout, i, ok >>
+                       selfCleanup, usedStart, usedStop, hret, wrote, 
+                       afterStop, ctimedout, wtimedout, i, ok >>
 
 P5c == /\ pc["c"] = "P5c"
        /\ rs' = "ENDED"
@@ -1095,8 +1209,8 @@ P5c == /\ pc["c"] = "P5c"
        /\ UNCHANGED << rep, runflag, fin, flag, next, cur, endsOK, res, 
                        startsOK, segments, lateStop, staleStart, lateEnd, 
                        staleEnd, earlyStop, selfStart, pendingStart, cleaned, 
-                       usedStart, usedStop, hret, wrote, afterStop, ctimedout, 
-                       wtimedout, i, ok >>
+                       selfCleanup, usedStart, usedStop, hret, wrote, 
+                       afterStop, ctimedout, wtimedout, i, ok >>
 
 P5d == /\ pc["c"] = "P5d"
        /\ rs' = "STOPPED"
@@ -1105,8 +1219,8 @@ P5d == /\ pc["c"] = "P5d"
        /\ UNCHANGED << rep, runflag, fin, flag, next, cur, endsOK, res, 
                        startsOK, segments, lateStop, staleStart, lateEnd, 
                        staleEnd, earlyStop, selfStart, pendingStart, cleaned, 
-                       usedStart, usedStop, hret, wrote, afterStop, ctimedout, 
-                       wtimedout, i, ok >>
+                       selfCleanup, usedStart, usedStop, hret, wrote, 
+                       afterStop, ctimedout, wtimedout, i, ok >>
 
 E1 == /\ pc["c"] = "E1"
       /\ last' = [t |-> "c", k |-> "R", v |-> "rs", x |-> rs]
@@ -1118,8 +1232,8 @@ E1 == /\ pc["c"] = "E1"
       /\ UNCHANGED << rs, rep, runflag, fin, flag, next, cur, endsOK, res, 
                       startsOK, segments, lateStop, staleStart, lateEnd, 
                       staleEnd, earlyStop, selfStart, pendingStart, cleaned, 
-                      usedStart, usedStop, hret, wrote, afterStop, ctimedout, 
-                      wtimedout, i >>
+                      selfCleanup, usedStart, usedStop, hret, wrote, afterStop, 
+                      ctimedout, wtimedout, i >>
 
 E2 == /\ pc["c"] = "E2"
       /\ last' = [t |-> "c", k |-> "R", v |-> "rep", x |-> rep]
@@ -1131,8 +1245,8 @@ E2 == /\ pc["c"] = "E2"
       /\ UNCHANGED << rs, rep, runflag, fin, flag, next, cur, endsOK, res, 
                       startsOK, segments, lateStop, staleStart, lateEnd, 
                       staleEnd, earlyStop, selfStart, pendingStart, cleaned, 
-                      usedStart, usedStop, hret, wrote, afterStop, ctimedout, 
-                      wtimedout, i >>
+                      selfCleanup, usedStart, usedStop, hret, wrote, afterStop, 
+                      ctimedout, wtimedout, i >>
 
 E3 == /\ pc["c"] = "E3"
       /\ lateEnd' = (lateEnd \/ rep = "ENDED")
@@ -1142,8 +1256,8 @@ E3 == /\ pc["c"] = "E3"
       /\ pc' = [pc EXCEPT !["c"] = "E4"]
       /\ UNCHANGED << rs, runflag, fin, flag, next, cur, endsOK, res, startsOK, 
                       segments, lateStop, staleStart, staleEnd, earlyStop, 
-                      selfStart, pendingStart, cleaned, usedStart, usedStop, 
-                      hret, afterStop, ctimedout, wtimedout, i, ok >>
+                      selfStart, pendingStart, cleaned, selfCleanup, usedStart, 
+                      usedStop, hret, afterStop, ctimedout, wtimedout, i, ok >>
 
 E4 == /\ pc["c"] = "E4"
       /\ staleEnd' = (staleEnd \/ pc["w"] = "W_clear")
@@ -1154,8 +1268,8 @@ E4 == /\ pc["c"] = "E4"
       /\ pc' = [pc EXCEPT !["c"] = "C_ret"]
       /\ UNCHANGED << rs, rep, runflag, fin, cur, res, startsOK, segments, 
                       lateStop, staleStart, lateEnd, earlyStop, selfStart, 
-                      pendingStart, cleaned, usedStart, usedStop, hret, wrote, 
-                      afterStop, ctimedout, wtimedout, i, ok >>
+                      pendingStart, cleaned, selfCleanup, usedStart, usedStop, 
+                      hret, wrote, afterStop, ctimedout, wtimedout, i, ok >>
 
 K1 == /\ pc["c"] = "K1"
       /\ rs' = "STOPPING"
@@ -1169,8 +1283,8 @@ K1 == /\ pc["c"] = "K1"
             ELSE /\ pc' = [pc EXCEPT !["c"] = "K2f"]
       /\ UNCHANGED << rep, runflag, fin, flag, next, cur, endsOK, res, 
                       startsOK, segments, lateStop, staleStart, lateEnd, 
-                      staleEnd, earlyStop, selfStart, cleaned, usedStart, 
-                      usedStop, hret, wtimedout, i, ok >>
+                      staleEnd, earlyStop, selfStart, cleaned, selfCleanup, 
+                      usedStart, usedStop, hret, wtimedout, i, ok >>
 
 K2f == /\ pc["c"] = "K2f"
        /\ last' = [t |-> "c", k |-> "R", v |-> "fin", x |-> IF fin THEN "True" ELSE "False"]
@@ -1180,8 +1294,8 @@ K2f == /\ pc["c"] = "K2f"
        /\ UNCHANGED << rs, rep, runflag, fin, flag, next, cur, endsOK, res, 
                        startsOK, segments, lateStop, staleStart, lateEnd, 
                        staleEnd, earlyStop, selfStart, pendingStart, cleaned, 
-                       usedStart, usedStop, hret, wrote, afterStop, ctimedout, 
-                       wtimedout, i, ok >>
+                       selfCleanup, usedStart, usedStop, hret, wrote, 
+                       afterStop, ctimedout, wtimedout, i, ok >>
 
 K2s == /\ pc["c"] = "K2s"
        /\ \/ /\ last' = [t |-> "c", k |-> "sleep", v |-> "-", x |-> "-"]
@@ -1198,8 +1312,8 @@ K2s == /\ pc["c"] = "K2s"
        /\ UNCHANGED << rs, rep, runflag, fin, flag, next, cur, endsOK, res, 
                        startsOK, segments, lateStop, staleStart, lateEnd, 
                        staleEnd, earlyStop, selfStart, pendingStart, cleaned, 
-                       usedStart, usedStop, hret, wrote, afterStop, wtimedout, 
-                       i, ok >>
+                       selfCleanup, usedStart, usedStop, hret, wrote, 
+                       afterStop, wtimedout, i, ok >>
 
 K3 == /\ pc["c"] = "K3"
       /\ fin' = TRUE
@@ -1207,9 +1321,9 @@ K3 == /\ pc["c"] = "K3"
       /\ pc' = [pc EXCEPT !["c"] = "K4"]
       /\ UNCHANGED << rs, rep, runflag, flag, next, cur, endsOK, res, startsOK, 
                       segments, lateStop, staleStart, lateEnd, staleEnd, 
-                      earlyStop, selfStart, pendingStart, cleaned, usedStart, 
-                      usedStop, hret, wrote, afterStop, ctimedout, wtimedout, 
-                      i, ok >>
+                      earlyStop, selfStart, pendingStart, cleaned, selfCleanup, 
+                      usedStart, usedStop, hret, wrote, afterStop, ctimedout, 
+                      wtimedout, i, ok >>
 
 K4 == /\ pc["c"] = "K4"
       /\ flag' = TRUE
@@ -1217,9 +1331,9 @@ K4 == /\ pc["c"] = "K4"
       /\ pc' = [pc EXCEPT !["c"] = "K5"]
       /\ UNCHANGED << rs, rep, runflag, fin, next, cur, endsOK, res, startsOK, 
                       segments, lateStop, staleStart, lateEnd, staleEnd, 
-                      earlyStop, selfStart, pendingStart, cleaned, usedStart, 
-                      usedStop, hret, wrote, afterStop, ctimedout, wtimedout, 
-                      i, ok >>
+                      earlyStop, selfStart, pendingStart, cleaned, selfCleanup, 
+                      usedStart, usedStop, hret, wrote, afterStop, ctimedout, 
+                      wtimedout, i, ok >>
 
 K5 == /\ pc["c"] = "K5"
       /\ rs' = "NOT_INITIALIZED"
@@ -1229,8 +1343,8 @@ K5 == /\ pc["c"] = "K5"
       /\ UNCHANGED << rep, runflag, fin, flag, next, cur, endsOK, res, 
                       startsOK, segments, lateStop, staleStart, lateEnd, 
                       staleEnd, earlyStop, selfStart, pendingStart, cleaned, 
-                      usedStart, usedStop, hret, wrote, ctimedout, wtimedout, 
-                      i, ok >>
+                      selfCleanup, usedStart, usedStop, hret, wrote, ctimedout, 
+                      wtimedout, i, ok >>
 
 K6 == /\ pc["c"] = "K6"
       /\ rep' = "NOT_INITIALIZED"
@@ -1239,8 +1353,9 @@ K6 == /\ pc["c"] = "K6"
       /\ pc' = [pc EXCEPT !["c"] = "C_ret"]
       /\ UNCHANGED << rs, runflag, fin, flag, next, cur, endsOK, res, startsOK, 
                       segments, lateStop, staleStart, lateEnd, staleEnd, 
-                      earlyStop, selfStart, pendingStart, usedStart, usedStop, 
-                      hret, wrote, afterStop, ctimedout, wtimedout, i, ok >>
+                      earlyStop, selfStart, pendingStart, selfCleanup, 
+                      usedStart, usedStop, hret, wrote, afterStop, ctimedout, 
+                      wtimedout, i, ok >>
 
 C_ret == /\ pc["c"] = "C_ret"
          /\ res' = Append(res, IF ok THEN "ok" ELSE "DSOLError")
@@ -1252,8 +1367,8 @@ C_ret == /\ pc["c"] = "C_ret"
          /\ UNCHANGED << rs, rep, runflag, fin, flag, next, cur, endsOK, 
                          startsOK, segments, lateStop, staleStart, lateEnd, 
                          staleEnd, earlyStop, selfStart, pendingStart, cleaned, 
-                         usedStart, usedStop, hret, wrote, afterStop, 
-                         ctimedout, wtimedout, ok >>
+                         selfCleanup, usedStart, usedStop, hret, wrote, 
+                         afterStop, ctimedout, wtimedout, ok >>
 
 caller == C_next \/ S1a \/ S1b \/ S2 \/ S2x \/ S3a \/ S3b \/ S5 \/ S6a
              \/ S6b \/ S8 \/ S9r \/ S9s \/ S10 \/ P1a \/ P1b \/ P3 \/ P4f
@@ -1292,7 +1407,7 @@ RefusedWroteNothing == (last.k = "ret" /\ last.x = "DSOLError") => ~wrote
 StopEffective == afterStop <= 1
 
 (* the same, with the known race / listener families of the pinned tree set aside (they are reported as known findings) *)
-Known == lateStop \/ staleStart \/ lateEnd \/ staleEnd \/ earlyStop \/ selfStart
+Known == lateStop \/ staleStart \/ lateEnd \/ staleEnd \/ earlyStop \/ selfStart \/ selfCleanup
 NoStuckStateK == Known \/ NoStuckState
 NoLostStartK == Known \/ NoLostStart
 StartEffectiveK == Known \/ StartEffective
@@ -1307,7 +1422,7 @@ EndRepEffectiveK == Known \/ EndRepEffective
 (* ---- liveness (checked with TLC on every scenario under LiveSpec): commands return, the run thread parks or ends ---- *)
 (* fairness: both threads keep taking steps, and the clock advances: a spin wait that can only be ended by its         *)
 (* one-second limit does reach that limit (strong fairness on the time-out branch of the sleep points)                  *)
-TimeoutStep == (H4s \/ L9s \/ S9s \/ P4s \/ K2s) /\ last'.v = "timeout"
+TimeoutStep == (H4s \/ L9s \/ S9s \/ P4s \/ K2s \/ J2s) /\ last'.v = "timeout"
 LiveSpec == Spec /\ WF_vars(caller) /\ SF_vars(TimeoutStep)
 Settles == <>[]Quiescent                                        \* no livelock: every scenario ends in a quiescent state
 EndedThreadGone == [](rs = "ENDED" => <>(pc["w"] = "Done"))    \* after the replication end the run thread terminates
